@@ -16,7 +16,7 @@ for f in sorted(glob.glob('/verif/checks/C*.json')):
       "evidence_file":f"/verif/evidence/{pid}.json",
       "replay_cmd_template":"/verif/bin/vf replay {path}",
       "engine":"vf",
-      "technique":"bounded symbolic execution of the go/ssa of the real functions (SSA -> SMT-LIB2 bit-vectors); z3 decides every path-feasibility and proof-obligation query; sat models are replayed natively",
+      "technique":"bounded symbolic execution of the go/ssa of the real functions (SSA -> SMT-LIB2 bit-vectors); z3 decides every path-feasibility and proof-obligation query; sat models are replayed natively"+("; concurrent obligations: interleavings enumerated by the executor under a pre-emption bound" if pid in notes and "ENUMERATED" in notes[pid].get("note","") else ""),
       "level_claimed":{"category":"model_checking",
          "text":n.get("text", f"Bounded, solver-decided: obligations {', '.join(obl)} hold for every input / fault / order within the bounds written in the evidence file (unsat from z3 5.1.0; thorough tier re-decides with z3 4.8.12 and cvc5). Nothing is claimed outside the bounds or about stubbed code."),
          "design_ref":f"DESIGN.md §7 {pid}"},
